@@ -4,7 +4,7 @@ import Cel.Model.Runtime
   Line protocol for C05: one line = one whole API history, the answer = the observations of every
   operation joined by `|`.
 
-    <cfg> op ; op ; …          cfg = three letters: clone d|s, parser c|s, namespace p|s
+    <cfg> op ; op ; …          cfg = letters: clone d|s, parser c|s, namespace p|s, resolve_name skips TypeError t|r (default t)
     E I|C <pkg> <n> name ann …  Environment(...)     pkg: `-` = None, `@text` = the string
     R                           CELParser.CEL_PARSER = None
     P <env> <expr>|!            compile   (`!` = text that does not parse)
@@ -88,11 +88,12 @@ def splitOps : List String → List String → List (List String)
 
 def parseCfg (s : String) : Option Config :=
   match s.toList with
-  | [c, p, n] => do
+  | c :: p :: n :: rest => do
       let c ← (match c with | 'd' => some ClonePolicy.deep | 's' => some .shallow | _ => none)
       let p ← (match p with | 'c' => some ParserPolicy.perClass | 's' => some .singleton | _ => none)
       let n ← (match n with | 'p' => some NamespacePolicy.perCall | 's' => some .shared | _ => none)
-      pure ⟨c, p, n⟩
+      let t ← (match rest with | [] => some true | ['t'] => some true | ['r'] => some false | _ => none)
+      pure ⟨c, p, n, t⟩
   | _ => none
 
 def showObs : Obs → String
